@@ -8,6 +8,7 @@ import Hm.Text
 import Hm.C10Req
 import Hm.C13EndToEnd
 import Hm.BlockCheck
+import Hm.Fold
 
 def hexDigit (n : Nat) : Char := if n < 10 then Char.ofNat (48 + n) else Char.ofNat (87 + n)
 def hex (bs : Bytes) : String := String.ofList (bs.flatMap fun b => [hexDigit (b.toNat / 16), hexDigit (b.toNat % 16)])
@@ -185,6 +186,28 @@ def respOp (cfg : RespCfg) (ds : List Bytes) : String × Option RespState :=
     if a = b then (b ++ " #r=" ++ showReserves rs, st) else ("MODEL-INCONSISTENT " ++ a ++ " <> " ++ b, none)
   else (b ++ " #r=" ++ showReserves rs, st)
 
+/-- the text after `generate`: the bytes, or the error of the dependency, or `FOLD` where the model does not answer
+    (a non-ASCII line that needs folding; a line limit below 2, where the dependency's `limit - 2` traps or wraps
+    depending on the build profile: known finding KF1) -/
+def genText (r : GenRes) : Except String Bytes :=
+  match r with
+  | .ok b => .ok b
+  | .couldNotBeFolded => .error "E:Headers(HeaderLineCouldNotBeFolded)"
+  | .panic => .error "FOLD"
+  | .unmodelled => .error "FOLD"
+
+/-- `Request::generate` / `Response::generate`: `Headers.generate` where every line fits (what the theorems speak about),
+    the folding model of `Hm/Fold` otherwise -/
+def reqGen (cfg : ReqCfg) (st : ReqState rhymuriImpl) : Except String Bytes :=
+  match Request.generate rhymuriImpl cfg st with
+  | some g => .ok g
+  | none => genText (Request.generateFold rhymuriImpl cfg st)
+
+def respGen (cfg : RespCfg) (st : RespState) : Except String Bytes :=
+  match Response.generate cfg st with
+  | some g => .ok g
+  | none => genText (Response.generateFold cfg st)
+
 def deflateOf (tree : Bool) : Bytes → Option Bytes := if tree then deflateSniff else inflateRaw
 
 /-! block descriptions for the `BLOCKS` op: blocks separated by `/`;
@@ -261,9 +284,9 @@ def step (toks : List String) : String :=
       match reqOp cfg ds with
       | (first, none) => first
       | (first, some st) =>
-        match Request.generate rhymuriImpl cfg st with
-        | none => first ++ " || FOLD"
-        | some g => first ++ " || OK " ++ hex g ++ " || " ++ (reqOp cfg [g]).1
+        match reqGen cfg st with
+        | .error e => first ++ " || " ++ e
+        | .ok g => first ++ " || OK " ++ hex g ++ " || " ++ (reqOp cfg [g]).1
     | _, _, _, _ => "bad-op"
   | ["RTRESP", tree, ov, hl, ds] =>
     match optLim none hl, (ds.splitOn "|").mapM unhex with
@@ -272,9 +295,9 @@ def step (toks : List String) : String :=
       match respOp cfg ds with
       | (first, none) => first
       | (first, some st) =>
-        match Response.generate cfg st with
-        | none => first ++ " || FOLD"
-        | some g => first ++ " || OK " ++ hex g ++ " || " ++ (respOp cfg [g]).1
+        match respGen cfg st with
+        | .error e => first ++ " || " ++ e
+        | .ok g => first ++ " || OK " ++ hex g ++ " || " ++ (respOp cfg [g]).1
     | _, _ => "bad-op"
   | ["REQGEN", hl, method, target, hs, body] =>
     match optNat hl, unhex method, unhex target, parseHeaders hs, unhex body with
@@ -284,18 +307,18 @@ def step (toks : List String) : String :=
       | none => "BADURI"
       | some uri =>
         let st : ReqState rhymuriImpl := { phase := .requestLine, totalBytes := 0, method := m, target := uri, headers := hs, body := body }
-        match Request.generate rhymuriImpl { rl := none, hl := hl, max := none, ov := true, tree := ⟨true⟩ } st with
-        | none => "FOLD"
-        | some g => "OK " ++ hex g
+        match reqGen { rl := none, hl := hl, max := none, ov := true, tree := ⟨true⟩ } st with
+        | .error e => e
+        | .ok g => "OK " ++ hex g
     | _, _, _, _, _ => "bad-op"
   | ["RESPGEN", hl, code, reason, hs, body] =>
     match optNat hl, code.toNat?, unhex reason, parseHeaders hs, unhex body with
     | some hl, some code, some reason, some hs, some body =>
       if !validUtf8 reason then "bad-op" else
       let st : RespState := { Response.new with statusCode := code, reasonPhrase := reason, headers := hs, body := body }
-      match Response.generate { hl := hl, ov := true, tree := ⟨true⟩ } st with
-      | none => "FOLD"
-      | some g => "OK " ++ hex g
+      match respGen { hl := hl, ov := true, tree := ⟨true⟩ } st with
+      | .error e => e
+      | .ok g => "OK " ++ hex g
     | _, _, _, _, _ => "bad-op"
   | ["REQGRT", hl, method, target, hs, body] =>
     -- `hl` alone: header line limit, no other limit; `rl,hl,mx`: the three limits of the parsing Request (spelled as in REQ)
@@ -314,15 +337,15 @@ def step (toks : List String) : String :=
       | some uri =>
         let st : ReqState rhymuriImpl := { phase := .requestLine, totalBytes := 0, method := m, target := uri, headers := hs, body := body }
         let shown := "V t=" ++ hex (Rhymuri.display uri) ++ " u=" ++ uriStruct uri
-        match Request.generate rhymuriImpl cfg st with
-        | none => shown ++ " || FOLD"
-        | some g =>
+        match reqGen cfg st with
+        | .error e => shown ++ " || " ++ e
+        | .ok g =>
           match reqOp cfg [g] with
           | (p, none) => shown ++ " || OK " ++ hex g ++ " || " ++ p
           | (p, some st2) =>
-            match Request.generate rhymuriImpl cfg st2 with
-            | none => shown ++ " || OK " ++ hex g ++ " || " ++ p ++ " || FOLD"
-            | some g2 => shown ++ " || OK " ++ hex g ++ " || " ++ p ++ " || OK " ++ hex g2
+            match reqGen cfg st2 with
+            | .error e => shown ++ " || OK " ++ hex g ++ " || " ++ p ++ " || " ++ e
+            | .ok g2 => shown ++ " || OK " ++ hex g ++ " || " ++ p ++ " || OK " ++ hex g2
     | _, _, _, _, _ => "bad-op"
   | ["RESPGRT", hl, code, reason, hs, body] =>
     match optNat hl, code.toNat?, unhex reason, parseHeaders hs, unhex body with
@@ -330,15 +353,15 @@ def step (toks : List String) : String :=
       if !validUtf8 reason then "bad-op" else
       let cfg : RespCfg := { hl := hl, ov := true, tree := ⟨true⟩ }
       let st : RespState := { Response.new with statusCode := code, reasonPhrase := reason, headers := hs, body := body }
-      match Response.generate cfg st with
-      | none => "V || FOLD"
-      | some g =>
+      match respGen cfg st with
+      | .error e => "V || " ++ e
+      | .ok g =>
         match respOp cfg [g] with
         | (p, none) => "V || OK " ++ hex g ++ " || " ++ p
         | (p, some st2) =>
-          match Response.generate cfg { st2 with trailer := [] } with
-          | none => "V || OK " ++ hex g ++ " || " ++ p ++ " || FOLD"
-          | some g2 => "V || OK " ++ hex g ++ " || " ++ p ++ " || OK " ++ hex g2
+          match respGen cfg { st2 with trailer := [] } with
+          | .error e => "V || OK " ++ hex g ++ " || " ++ p ++ " || " ++ e
+          | .ok g2 => "V || OK " ++ hex g ++ " || " ++ p ++ " || OK " ++ hex g2
     | _, _, _, _, _ => "bad-op"
   | ["DECODE", tree, hs, body] =>
     match parseHeaders hs, unhex body with
